@@ -47,6 +47,8 @@ def run(ctx) -> None:
     r15_2(ctx)
     r15_3(ctx)
     r15_4(ctx)
+    r15_6(ctx)
+    ctx.floor("recreate_fields", 1)
     # the exit every decorated call performs is the generator-based manager's: "exits it with the
     # body's exception ... propagates unless the context suppresses it" is C13's decision table
     from . import c13
@@ -207,6 +209,68 @@ def r15_2(ctx) -> None:
             ctx.check(ok, "R15.2", rec, "_recreate_cm",
                       "_recreate_cm returns a new instance of its own type from exactly the (func, args, kwds) that "
                       "__init__ received (never self)", witness=f"evaluated {got}")
+
+
+MUTATORS = {"clear", "pop", "popitem", "update", "setdefault", "append", "extend", "insert", "remove", "sort", "reverse",
+            "__setitem__", "__delitem__", "__ior__"}
+
+
+def r15_6(ctx) -> None:
+    """The per-call manager is built from the *same* (func, args, kwds) objects the decorating
+    manager holds (``type(self)(*stored)``): they are shared by every call.  No method but
+    ``__init__`` may therefore rebind the fields that hold them or mutate the objects."""
+    ctx.rule("R15.6", "the stored constructor arguments are never rebound or mutated after construction (all calls share them)")
+    from .c08 import _field_writes
+    info = ctx.pkg.cls("contextlib._AsyncGeneratorContextManager")
+    init = info.methods.get("__init__")
+    p = init.param_names()
+    if len(p) != 4:
+        return
+    ops = _RecreateOps()
+    outs = [oc for oc in Machine(cfg_of(init), ops, resolver=make_resolver(ctx, init, ops)).run(
+        {p[0]: "SELF", p[1]: "FUNC", p[2]: "ARGS", p[3]: "KWDS"}) if oc.terminal.kind == "exit"]
+    held = set()
+    for oc in outs:
+        for k, v in oc.env.items():
+            if k.startswith("@f:") and ("ARGS" in str(v) or "KWDS" in str(v)) and not str(v).startswith("('call'"):
+                held.add(k[3:])
+    ctx.check(bool(held), "R15.6", init, "__init__", "the constructor arguments are stored for re-creation", witness=str(sorted(held)))
+    ctx.count("recreate_fields", len(held))
+    for name, meth in info.methods.items():
+        if name == "__init__":
+            continue
+        me = meth.param_names()[0] if meth.param_names() else "self"
+        bad = []
+        for fld in held:
+            plain = fld.split("__")[-1] if fld.startswith("_" + info.name.lstrip("_") + "__") else fld
+            for cand in {fld, "__" + plain if fld != plain else fld}:
+                bad += _field_writes(meth, cand)
+        # names bound (directly or by unpacking) from an expression that reads a held field
+        def reads_held(e) -> bool:
+            return any(isinstance(x, ast.Attribute) and isinstance(x.value, ast.Name) and x.value.id == me
+                       and info.mangle(x.attr) in {info.mangle(h) for h in held} | held for x in ast.walk(e))
+        tainted = set()
+        for st in own_nodes(meth.node):
+            if isinstance(st, (ast.Assign, ast.AnnAssign)) and st.value is not None and reads_held(st.value):
+                for t in (st.targets if isinstance(st, ast.Assign) else [st.target]):
+                    tainted |= {x.id for x in ast.walk(t) if isinstance(x, ast.Name)}
+            if isinstance(st, ast.NamedExpr) and reads_held(st.value) and isinstance(st.target, ast.Name):
+                tainted.add(st.target.id)
+        for x in own_nodes(meth.node):
+            if isinstance(x, ast.Call) and isinstance(x.func, ast.Attribute) and x.func.attr in MUTATORS:
+                base = x.func.value
+                if (isinstance(base, ast.Name) and base.id in tainted) or reads_held(base):
+                    bad.append(x)
+            if isinstance(x, (ast.Assign, ast.AugAssign, ast.Delete)):
+                for t in (x.targets if isinstance(x, (ast.Assign, ast.Delete)) else [x.target]):
+                    for sub in ast.walk(t):
+                        if isinstance(sub, ast.Subscript) and ((isinstance(sub.value, ast.Name) and sub.value.id in tainted)
+                                                                or reads_held(sub.value)):
+                            bad.append(x)
+        ctx.check(not bad, "R15.6", meth, bad[0] if bad else name,
+                  f"{name} leaves the stored constructor arguments alone" if not bad else
+                  f"`{norm(bad[0])}` rebinds or mutates the stored constructor arguments: the decorating manager and every "
+                  "later call are built from these very objects", line=getattr(bad[0], "lineno", None) if bad else None)
 
 
 def r15_3(ctx) -> None:
